@@ -37,16 +37,17 @@ VARIABLES tid, l, ok, why, failedAt,
           maxw,        \* largest max_workers in force
           hasTmo,      \* the executor has an idle timeout
           multi,       \* several user threads call the API
+          inCalls,     \* get_reusable_executor calls in progress: user -> requested max_workers
           tmoInCall,   \* idle-timeout exits since the current get_reusable_executor call began
           liveAtCall,  \* workers alive when the current get_reusable_executor call began
           subAfterShut \* tasks accepted after a shutdown began (must not happen)
 vars == <<tid, l, ok, why, failedAt, kindOf, started, finished, resolved, cancelled, cancelling, running, live, crashed, crashedSettled, brokenSeen,
-          shutdownAt, shutRet, exited, deleted, timeouts, maxw, hasTmo, multi, tmoInCall, liveAtCall, subAfterShut>>
+          shutdownAt, shutRet, exited, deleted, timeouts, maxw, hasTmo, multi, inCalls, tmoInCall, liveAtCall, subAfterShut>>
 
 Init == /\ tid \in 1..Len(Traces) /\ l = 1 /\ ok = TRUE /\ why = "none" /\ failedAt = 0
         /\ kindOf = <<>> /\ started = <<>> /\ finished = {} /\ resolved = <<>> /\ cancelled = {} /\ cancelling = {} /\ running = {}
         /\ live = {} /\ crashed = FALSE /\ crashedSettled = FALSE /\ brokenSeen = FALSE /\ shutdownAt = "none" /\ shutRet = FALSE
-        /\ exited = FALSE /\ deleted = FALSE /\ timeouts = 0 /\ maxw = 0 /\ hasTmo = FALSE /\ multi = FALSE /\ tmoInCall = 0 /\ liveAtCall = {} /\ subAfterShut = {}
+        /\ exited = FALSE /\ deleted = FALSE /\ timeouts = 0 /\ maxw = 0 /\ hasTmo = FALSE /\ multi = FALSE /\ inCalls = <<>> /\ tmoInCall = 0 /\ liveAtCall = {} /\ subAfterShut = {}
 
 Ev == Traces[tid][l]
 Get(f, k, d) == IF k \in DOMAIN f THEN f[k] ELSE d
@@ -60,13 +61,14 @@ Check(cs) == LET bad == {i \in 1..Len(cs) : cs[i][1] = Prop /\ cs[i][2]} IN
 TaskFailKinds == {"raise", "sysexit", "kbint", "unpicklable_arg", "oserror_arg", "too_large", "unpicklable_result", "unpicklable_exc"}
 \* kinds whose failure legitimately breaks the pool (the property excludes them from containment)
 BreakingKinds == {"crash", "unloadable_arg", "unloadable_result"}
+Bound == LET S == {inCalls[x] : x \in DOMAIN inCalls} \cup {maxw} IN CHOOSE m \in S : \A y \in S : y <= m
 Disturbed == crashed \/ (\E t \in DOMAIN kindOf : kindOf[t] \in BreakingKinds)
 ExpectedType(k) == CASE k = "raise" -> "ValueError" [] k = "sysexit" -> "SystemExit" [] k = "kbint" -> "KeyboardInterrupt"
                      [] k = "unpicklable_arg" -> "PicklingError" [] k = "oserror_arg" -> "PicklingError" [] k = "too_large" -> "RuntimeError"
                      [] OTHER -> "any"      \* unpicklable result / exception: some exception, but only for this future
 
 State == <<kindOf, started, finished, resolved, cancelled, cancelling, running, live, crashed, crashedSettled, brokenSeen, shutdownAt, shutRet,
-           exited, deleted, timeouts, maxw, hasTmo, multi, tmoInCall, liveAtCall, subAfterShut>>
+           exited, deleted, timeouts, maxw, hasTmo, multi, inCalls, tmoInCall, liveAtCall, subAfterShut>>
 \* after the first failing clause the rest of the trace is skipped; the verdict is printed once per trace
 Skip == /\ ~ok /\ l <= Len(Traces[tid]) /\ l' = l + 1 /\ tid' = tid /\ UNCHANGED <<ok, why, failedAt, State>>
 Report == /\ l = Len(Traces[tid]) + 1 /\ l' = l + 1 /\ tid' = tid /\ UNCHANGED <<ok, why, failedAt, State>>
@@ -76,11 +78,11 @@ Step ==
   /\ LET e == Ev IN
      CASE e.ev = "cfg" ->
             /\ maxw' = e.maxw /\ hasTmo' = e.wait /\ multi' = e.kill /\ crashed' = e.res        \* res: the scenario contains a failing initializer (breaks the pool)
-            /\ UNCHANGED <<kindOf, started, finished, resolved, cancelled, cancelling, running, live, crashedSettled, brokenSeen, shutdownAt, shutRet, exited, deleted, timeouts, tmoInCall, liveAtCall, subAfterShut>> /\ Fine
+            /\ UNCHANGED <<kindOf, started, finished, resolved, cancelled, cancelling, running, live, crashedSettled, brokenSeen, shutdownAt, shutRet, exited, deleted, timeouts, inCalls, tmoInCall, liveAtCall, subAfterShut>> /\ Fine
        [] e.ev = "submit" ->
             /\ kindOf' = Put(kindOf, e.t, e.kind)
             /\ subAfterShut' = IF shutdownAt # "none" \/ exited THEN subAfterShut \cup {e.t} ELSE subAfterShut
-            /\ UNCHANGED <<started, finished, resolved, cancelled, cancelling, running, live, crashed, crashedSettled, brokenSeen, shutdownAt, shutRet, exited, deleted, timeouts, maxw, hasTmo, multi, tmoInCall, liveAtCall>>
+            /\ UNCHANGED <<started, finished, resolved, cancelled, cancelling, running, live, crashed, crashedSettled, brokenSeen, shutdownAt, shutRet, exited, deleted, timeouts, maxw, hasTmo, multi, inCalls, tmoInCall, liveAtCall>>
             /\ Check(<< <<"C05", shutRet, "C05: submit() was accepted after shutdown() had returned">>,
                         <<"C06", shutRet, "C06: submit() was accepted after shutdown(kill_workers=True) had returned">>,
                         <<"C02", brokenSeen, "C02: submit() was accepted after the pool had failed futures with BrokenProcessPool">>,
@@ -88,7 +90,7 @@ Step ==
                         <<"C18", crashedSettled /\ e.kind = "probe" /\ timeouts = 0, "C18: an initializer failure did not break the pool">> >>)
        [] e.ev = "submit_rejected" ->
             /\ brokenSeen' = (brokenSeen \/ e.bpp)
-            /\ UNCHANGED <<kindOf, started, finished, resolved, cancelled, cancelling, running, live, crashed, crashedSettled, shutdownAt, shutRet, exited, deleted, timeouts, maxw, hasTmo, multi, tmoInCall, liveAtCall, subAfterShut>>
+            /\ UNCHANGED <<kindOf, started, finished, resolved, cancelled, cancelling, running, live, crashed, crashedSettled, shutdownAt, shutRet, exited, deleted, timeouts, maxw, hasTmo, multi, inCalls, tmoInCall, liveAtCall, subAfterShut>>
             /\ Check(<< <<"C04", e.bpp /\ ~Disturbed, "C04: submit() raised BrokenProcessPool although no worker died: a task-level failure broke the pool">>,
                         <<"C07", e.bpp /\ ~Disturbed, "C07: submit() raised BrokenProcessPool in a run with idle timeouts only">>,
                         <<"C05", e.bpp /\ ~Disturbed, "C05: the pool was flagged broken during a graceful shutdown">>,
@@ -98,26 +100,26 @@ Step ==
        [] e.ev = "start" ->
             /\ started' = Put(started, e.t, Get(started, e.t, 0) + 1)
             /\ running' = running \cup {<<e.t, e.pid>>}
-            /\ UNCHANGED <<kindOf, finished, resolved, cancelled, cancelling, live, crashed, crashedSettled, brokenSeen, shutdownAt, shutRet, exited, deleted, timeouts, maxw, hasTmo, multi, tmoInCall, liveAtCall, subAfterShut>>
+            /\ UNCHANGED <<kindOf, finished, resolved, cancelled, cancelling, live, crashed, crashedSettled, brokenSeen, shutdownAt, shutRet, exited, deleted, timeouts, maxw, hasTmo, multi, inCalls, tmoInCall, liveAtCall, subAfterShut>>
             /\ Check(<< <<"C03", Get(started, e.t, 0) >= 1, "C03: a task body was executed twice">>,
                         <<"C07", Get(started, e.t, 0) >= 1, "C07: a task was duplicated">>,
                         <<"C03", e.t \in cancelled, "C03: a task ran although cancel() had returned True">>,
-                        <<"C08", maxw > 0 /\ Cardinality(running) + 1 > maxw, "C08: more than max_workers tasks execute concurrently">> >>)
+                        <<"C08", maxw > 0 /\ Cardinality(running) + 1 > Bound, "C08: more than max_workers tasks execute concurrently">> >>)
        [] e.ev = "finish" ->
             /\ finished' = finished \cup {e.t}
             /\ running' = running \ {<<e.t, e.pid>>}
-            /\ UNCHANGED <<kindOf, started, resolved, cancelled, cancelling, live, crashed, crashedSettled, brokenSeen, shutdownAt, shutRet, exited, deleted, timeouts, maxw, hasTmo, multi, tmoInCall, liveAtCall, subAfterShut>> /\ Fine
+            /\ UNCHANGED <<kindOf, started, resolved, cancelled, cancelling, live, crashed, crashedSettled, brokenSeen, shutdownAt, shutRet, exited, deleted, timeouts, maxw, hasTmo, multi, inCalls, tmoInCall, liveAtCall, subAfterShut>> /\ Fine
        [] e.ev = "cancel_call" ->
             /\ cancelling' = cancelling \cup {e.t}
-            /\ UNCHANGED <<kindOf, started, finished, resolved, cancelled, running, live, crashed, crashedSettled, brokenSeen, shutdownAt, shutRet, exited, deleted, timeouts, maxw, hasTmo, multi, tmoInCall, liveAtCall, subAfterShut>> /\ Fine
+            /\ UNCHANGED <<kindOf, started, finished, resolved, cancelled, running, live, crashed, crashedSettled, brokenSeen, shutdownAt, shutRet, exited, deleted, timeouts, maxw, hasTmo, multi, inCalls, tmoInCall, liveAtCall, subAfterShut>> /\ Fine
        [] e.ev = "cancel" ->
             /\ cancelled' = IF e.res \/ Get(resolved, e.t, "") = "cancelled" THEN cancelled \cup {e.t} ELSE cancelled \ {e.t}
-            /\ UNCHANGED <<kindOf, started, finished, resolved, cancelling, running, live, crashed, crashedSettled, brokenSeen, shutdownAt, shutRet, exited, deleted, timeouts, maxw, hasTmo, multi, tmoInCall, liveAtCall, subAfterShut>>
+            /\ UNCHANGED <<kindOf, started, finished, resolved, cancelling, running, live, crashed, crashedSettled, brokenSeen, shutdownAt, shutRet, exited, deleted, timeouts, maxw, hasTmo, multi, inCalls, tmoInCall, liveAtCall, subAfterShut>>
             /\ Check(<< <<"C03", e.res /\ Get(started, e.t, 0) >= 1, "C03: cancel() returned True for a task that had already started">> >>)
        [] e.ev = "resolve" ->
             /\ resolved' = Put(resolved, e.t, e.outcome)
             /\ brokenSeen' = (brokenSeen \/ (e.outcome = "exception" /\ e.bpp))
-            /\ UNCHANGED <<kindOf, started, finished, cancelled, cancelling, running, live, crashed, crashedSettled, shutdownAt, shutRet, exited, deleted, timeouts, maxw, hasTmo, multi, tmoInCall, liveAtCall, subAfterShut>>
+            /\ UNCHANGED <<kindOf, started, finished, cancelled, cancelling, running, live, crashed, crashedSettled, shutdownAt, shutRet, exited, deleted, timeouts, maxw, hasTmo, multi, inCalls, tmoInCall, liveAtCall, subAfterShut>>
             /\ LET k == Get(kindOf, e.t, "unknown")
                    isBpp == e.outcome = "exception" /\ e.bpp
                    isShut == e.outcome = "exception" /\ e.shut
@@ -141,28 +143,28 @@ Step ==
                >>)
        [] e.ev = "spawn" ->
             /\ live' = live \cup {e.pid}
-            /\ UNCHANGED <<kindOf, started, finished, resolved, cancelled, cancelling, running, crashed, crashedSettled, brokenSeen, shutdownAt, shutRet, exited, deleted, timeouts, maxw, hasTmo, multi, tmoInCall, liveAtCall, subAfterShut>>
+            /\ UNCHANGED <<kindOf, started, finished, resolved, cancelled, cancelling, running, crashed, crashedSettled, brokenSeen, shutdownAt, shutRet, exited, deleted, timeouts, maxw, hasTmo, multi, inCalls, tmoInCall, liveAtCall, subAfterShut>>
             /\ Fine
        [] e.ev = "reg" ->
-            /\ UNCHANGED <<kindOf, started, finished, resolved, cancelled, cancelling, running, live, crashed, crashedSettled, brokenSeen, shutdownAt, shutRet, exited, deleted, timeouts, maxw, hasTmo, multi, tmoInCall, liveAtCall, subAfterShut>>
-            /\ Check(<< <<"C08", maxw > 0 /\ e.n > maxw, "C08: more than max_workers workers are registered">> >>)
+            /\ UNCHANGED <<kindOf, started, finished, resolved, cancelled, cancelling, running, live, crashed, crashedSettled, brokenSeen, shutdownAt, shutRet, exited, deleted, timeouts, maxw, hasTmo, multi, inCalls, tmoInCall, liveAtCall, subAfterShut>>
+            /\ Check(<< <<"C08", maxw > 0 /\ e.n > Bound, "C08: more than max_workers workers are registered">> >>)
        [] e.ev = "die" ->
             /\ live' = live \ {e.pid}
             /\ running' = {x \in running : x[2] # e.pid}
             /\ crashed' = (crashed \/ (e.how = "crash" /\ ~e.late))
             /\ timeouts' = IF e.how = "exit" THEN timeouts + 1 ELSE timeouts
             /\ tmoInCall' = IF e.how = "exit" /\ e.reason = "timeout" THEN tmoInCall + 1 ELSE tmoInCall
-            /\ UNCHANGED <<kindOf, started, finished, resolved, cancelled, cancelling, crashedSettled, brokenSeen, shutdownAt, shutRet, exited, deleted, maxw, hasTmo, multi, liveAtCall, subAfterShut>>
+            /\ UNCHANGED <<kindOf, started, finished, resolved, cancelled, cancelling, crashedSettled, brokenSeen, shutdownAt, shutRet, exited, deleted, maxw, hasTmo, multi, inCalls, liveAtCall, subAfterShut>>
             /\ Check(<< <<"C05", e.how = "exit" /\ e.code # 0 /\ ~Disturbed, "C05: a worker left with a non-zero exit status during a graceful run">>,
                         <<"C07", e.how = "killed" /\ ~Disturbed /\ shutdownAt # "kill", "C07: a worker was killed in a run with idle timeouts only (timeout exit reported as a crash)">>,
                         <<"C05", e.how = "killed" /\ ~Disturbed /\ shutdownAt # "kill", "C05: a worker was killed during a graceful shutdown">>,
                         <<"C07", e.how = "exit" /\ (\E x \in running : x[2] = e.pid), "C07: a worker left while it was holding a task">> >>)
        [] e.ev = "shutdown_call" ->
             /\ shutdownAt' = IF e.kill THEN "kill" ELSE IF shutdownAt = "kill" THEN "kill" ELSE "graceful"
-            /\ UNCHANGED <<kindOf, started, finished, resolved, cancelled, cancelling, running, live, crashed, crashedSettled, brokenSeen, shutRet, exited, deleted, timeouts, maxw, hasTmo, multi, tmoInCall, liveAtCall, subAfterShut>> /\ Fine
+            /\ UNCHANGED <<kindOf, started, finished, resolved, cancelled, cancelling, running, live, crashed, crashedSettled, brokenSeen, shutRet, exited, deleted, timeouts, maxw, hasTmo, multi, inCalls, tmoInCall, liveAtCall, subAfterShut>> /\ Fine
        [] e.ev = "shutdown_ret" ->
             /\ shutRet' = (shutRet \/ e.wait)
-            /\ UNCHANGED <<kindOf, started, finished, resolved, cancelled, cancelling, running, live, crashed, crashedSettled, brokenSeen, shutdownAt, exited, deleted, timeouts, maxw, hasTmo, multi, tmoInCall, liveAtCall, subAfterShut>>
+            /\ UNCHANGED <<kindOf, started, finished, resolved, cancelled, cancelling, running, live, crashed, crashedSettled, brokenSeen, shutdownAt, exited, deleted, timeouts, maxw, hasTmo, multi, inCalls, tmoInCall, liveAtCall, subAfterShut>>
             /\ Check(<< <<"C05", e.wait /\ ~e.kill /\ live # {} /\ ~Disturbed, "C05: shutdown(wait=True) returned while workers are still alive">>,
                         <<"C06", e.wait /\ e.kill /\ live # {}, "C06: shutdown(kill_workers=True) returned while workers are still alive">>,
                         <<"C05", e.wait /\ ~e.kill /\ ~Disturbed /\ (\E t \in DOMAIN kindOf : t \notin DOMAIN resolved /\ t \notin subAfterShut),
@@ -170,15 +172,17 @@ Step ==
                         <<"C06", e.wait /\ e.kill /\ (\E t \in DOMAIN kindOf : t \notin DOMAIN resolved), "C06: shutdown(kill_workers=True) returned and left a future unresolved">> >>)
        [] e.ev = "exit_call" ->
             /\ exited' = TRUE
-            /\ UNCHANGED <<kindOf, started, finished, resolved, cancelled, cancelling, running, live, crashed, crashedSettled, brokenSeen, shutdownAt, shutRet, deleted, timeouts, maxw, hasTmo, multi, tmoInCall, liveAtCall, subAfterShut>> /\ Fine
+            /\ UNCHANGED <<kindOf, started, finished, resolved, cancelled, cancelling, running, live, crashed, crashedSettled, brokenSeen, shutdownAt, shutRet, deleted, timeouts, maxw, hasTmo, multi, inCalls, tmoInCall, liveAtCall, subAfterShut>> /\ Fine
        [] e.ev = "del" ->
             /\ deleted' = TRUE
-            /\ UNCHANGED <<kindOf, started, finished, resolved, cancelled, cancelling, running, live, crashed, crashedSettled, brokenSeen, shutdownAt, shutRet, exited, timeouts, maxw, hasTmo, multi, tmoInCall, liveAtCall, subAfterShut>> /\ Fine
+            /\ UNCHANGED <<kindOf, started, finished, resolved, cancelled, cancelling, running, live, crashed, crashedSettled, brokenSeen, shutdownAt, shutRet, exited, timeouts, maxw, hasTmo, multi, inCalls, tmoInCall, liveAtCall, subAfterShut>> /\ Fine
        [] e.ev = "reuse_call" ->
             /\ liveAtCall' = live /\ tmoInCall' = 0
+            /\ inCalls' = Put(inCalls, e.u, e.n)             \* while a resize is in progress both sizes are in force
             /\ UNCHANGED <<kindOf, started, finished, resolved, cancelled, cancelling, running, live, crashed, crashedSettled, brokenSeen, shutdownAt, shutRet, exited, deleted, timeouts, maxw, hasTmo, multi, subAfterShut>> /\ Fine
        [] e.ev = "reuse_ret" ->
             /\ maxw' = e.n      \* a completed resize / replacement fixes the bound
+            /\ inCalls' = [x \in DOMAIN inCalls \ {e.u} |-> inCalls[x]]
             /\ shutdownAt' = (IF e.same THEN shutdownAt ELSE "none")
             /\ shutRet' = (IF e.same THEN shutRet ELSE FALSE)
             /\ brokenSeen' = (IF e.same THEN brokenSeen ELSE FALSE)
@@ -195,21 +199,21 @@ Step ==
                         <<"C09", e.same /\ (e.oldbroken \/ e.oldshutdown), "C09: a broken or shut-down instance was reused">> >>)
        [] e.ev = "settled" ->
             /\ crashedSettled' = crashed
-            /\ UNCHANGED <<kindOf, started, finished, resolved, cancelled, cancelling, running, live, crashed, brokenSeen, shutdownAt, shutRet, exited, deleted, timeouts, maxw, hasTmo, multi, tmoInCall, liveAtCall, subAfterShut>> /\ Fine
+            /\ UNCHANGED <<kindOf, started, finished, resolved, cancelled, cancelling, running, live, crashed, brokenSeen, shutdownAt, shutRet, exited, deleted, timeouts, maxw, hasTmo, multi, inCalls, tmoInCall, liveAtCall, subAfterShut>> /\ Fine
        [] e.ev = "timeouts_on" ->
             /\ hasTmo' = TRUE
-            /\ UNCHANGED <<kindOf, started, finished, resolved, cancelled, cancelling, running, live, crashed, crashedSettled, brokenSeen, shutdownAt, shutRet, exited, deleted, timeouts, maxw, multi, tmoInCall, liveAtCall, subAfterShut>> /\ Fine
+            /\ UNCHANGED <<kindOf, started, finished, resolved, cancelled, cancelling, running, live, crashed, crashedSettled, brokenSeen, shutdownAt, shutRet, exited, deleted, timeouts, maxw, multi, inCalls, tmoInCall, liveAtCall, subAfterShut>> /\ Fine
        [] e.ev = "timeouts_off" ->
             /\ hasTmo' = FALSE
-            /\ UNCHANGED <<kindOf, started, finished, resolved, cancelled, cancelling, running, live, crashed, crashedSettled, brokenSeen, shutdownAt, shutRet, exited, deleted, timeouts, maxw, multi, tmoInCall, liveAtCall, subAfterShut>> /\ Fine
+            /\ UNCHANGED <<kindOf, started, finished, resolved, cancelled, cancelling, running, live, crashed, crashedSettled, brokenSeen, shutdownAt, shutRet, exited, deleted, timeouts, maxw, multi, inCalls, tmoInCall, liveAtCall, subAfterShut>> /\ Fine
        [] e.ev = "map_result" ->
-            /\ UNCHANGED <<kindOf, started, finished, resolved, cancelled, cancelling, running, live, crashed, crashedSettled, brokenSeen, shutdownAt, shutRet, exited, deleted, timeouts, maxw, hasTmo, multi, tmoInCall, liveAtCall, subAfterShut>>
+            /\ UNCHANGED <<kindOf, started, finished, resolved, cancelled, cancelling, running, live, crashed, crashedSettled, brokenSeen, shutdownAt, shutRet, exited, deleted, timeouts, maxw, hasTmo, multi, inCalls, tmoInCall, liveAtCall, subAfterShut>>
             /\ Check(<< <<"C03", ~e.good, "C03: map() did not yield list(map(fn, *iterables)) in order">> >>)
        [] e.ev = "sat_probe" ->
-            /\ UNCHANGED <<kindOf, started, finished, resolved, cancelled, cancelling, running, live, crashed, crashedSettled, brokenSeen, shutdownAt, shutRet, exited, deleted, timeouts, maxw, hasTmo, multi, tmoInCall, liveAtCall, subAfterShut>>
+            /\ UNCHANGED <<kindOf, started, finished, resolved, cancelled, cancelling, running, live, crashed, crashedSettled, brokenSeen, shutdownAt, shutRet, exited, deleted, timeouts, maxw, hasTmo, multi, inCalls, tmoInCall, liveAtCall, subAfterShut>>
             /\ Check(<< <<"C08", Cardinality(running) < e.n, "C08: fewer than max_workers long tasks run although that many are pending on a healthy executor">> >>)
        [] e.ev = "end" ->
-            /\ UNCHANGED <<kindOf, started, finished, resolved, cancelled, cancelling, running, live, crashed, crashedSettled, brokenSeen, shutdownAt, shutRet, exited, deleted, timeouts, maxw, hasTmo, multi, tmoInCall, liveAtCall, subAfterShut>>
+            /\ UNCHANGED <<kindOf, started, finished, resolved, cancelled, cancelling, running, live, crashed, crashedSettled, brokenSeen, shutdownAt, shutRet, exited, deleted, timeouts, maxw, hasTmo, multi, inCalls, tmoInCall, liveAtCall, subAfterShut>>
             /\ LET unresolved == {t \in DOMAIN kindOf : t \notin DOMAIN resolved}
                    closing == shutdownAt # "none" \/ exited \/ deleted \/ brokenSeen
                IN Check(<<
@@ -235,7 +239,7 @@ Step ==
                  <<"C20", closing /\ (e.liveprocs # <<>> \/ e.unreaped # <<>> \/ e.mgmtalive), "C20: processes or threads are left behind by a completed lifecycle">>
                >>)
        [] OTHER ->
-            /\ UNCHANGED <<kindOf, started, finished, resolved, cancelled, cancelling, running, live, crashed, crashedSettled, brokenSeen, shutdownAt, shutRet, exited, deleted, timeouts, maxw, hasTmo, multi, tmoInCall, liveAtCall, subAfterShut>> /\ Fine
+            /\ UNCHANGED <<kindOf, started, finished, resolved, cancelled, cancelling, running, live, crashed, crashedSettled, brokenSeen, shutdownAt, shutRet, exited, deleted, timeouts, maxw, hasTmo, multi, inCalls, tmoInCall, liveAtCall, subAfterShut>> /\ Fine
 
 Spec == Init /\ [][Step \/ Skip \/ Report]_vars
 =============================================================================
